@@ -260,8 +260,9 @@ def _loops(files, defines, cwd):
 def run_cbmc(h, witness=False, trace=False, backend=None, cap=60):
     files = [os.path.join(h.dir, "harness.c")] + [u["c"] for u in h.units]
     defines = list(h.defines) + (["WITNESS"] if witness else []) + (["VERIF_TRACK"] if h.track else [])
-    uset = ["harness.%d:%d" % (k, BIG_UNWIND) for k in range(48)] + ["%s.0:%d" % (f, BIG_UNWIND) for f in ("verif_fill", "verif_copy", "ref_rd")]
-    uset += ["%s:%d" % (l, BIG_UNWIND) for l in h.meta.get("big_loops", [])]
+    big = int(h.meta.get("big_unwind", BIG_UNWIND))   # loops of the harness / reference model themselves (buffer fill, copy, comparison): bounded by the buffer size
+    uset = ["harness.%d:%d" % (k, big) for k in range(48)] + ["%s.0:%d" % (f, big) for f in ("verif_fill", "verif_copy", "ref_rd")]
+    uset += ["%s:%d" % (l, big) for l in h.meta.get("big_loops", [])]
     uset += ["%s:%d" % (l, k) for l, k in sorted(h.meta.get("bumped_loops", {}).items())]
     cmd = ["cbmc"] + files + ["--function", "harness", "--unwind", str(h.unwind)] + BASE_FLAGS + ["-I", ENGINE]
     if uset: cmd += ["--unwindset", ",".join(uset)]
